@@ -1005,6 +1005,11 @@ def _block(self):
                 self.type_()
             self.expect('op', '=')
             e = self.expr()
+            if self.accept('id', 'else'):
+                els = self.block()
+                self.expect('op', ';')
+                stmts.append(('letelse', name, e, els))
+                continue
             self.expect('op', ';')
             stmts.append(('let', name, e, mut))
             continue
@@ -1663,7 +1668,189 @@ def gen_huge(repo):
     out.append("end LLFree.Gen.H")
     return "\n".join(out) + "\n"
 
-GENERATORS = {'Consts': gen_consts, 'Fza': gen_fza, 'Leaf': gen_leaf, 'Tree': gen_tree, 'Local': gen_local, 'Huge': gen_huge, 'Policy': gen_policy, 'Toggle': gen_toggle, 'Check': gen_check, 'Meta': gen_meta, 'Sbuf': gen_sbuf, 'Idx': gen_idx}
+# ------------------------------------------------------------------ wrapper.rs: ZoneAlloc / NvmAlloc argument translation
+class ZoneEmit:
+    """the Option/Result combinator subset of `ZoneAlloc::{get, put, stats_at, create}` and the size arithmetic of
+    `NvmAlloc::create`: `FrameId(x)` / `.0` are transparent (newtype), `Error::X` is `Err.x`, `e?` is a monadic bind in
+    `Except Err`, a call of the wrapped allocator is the parameter `inner`"""
+    def __init__(self, names): self.names = names
+    def err(self, e):
+        if e[0] == 'path' and e[1].startswith('Error::'): return '.' + camel(e[1].split('::')[1])
+        raise TranslateError(f"zone: error value {e}")
+    def fn(self, e):
+        """a function argument of map / and_then"""
+        if e == ('path', 'FrameId'): return 'id'
+        if e[0] == 'closure' and len(e[1]) == 1 and e[1][0][0] == 'pvar':
+            v = e[1][0][1]
+            sub = ZoneEmit(dict(self.names, **{v: v}))
+            return f"(fun {v} => {sub.ex(e[2])})"
+        raise TranslateError(f"zone: function argument {e[0]}")
+    def ex(self, e):
+        k = e[0]
+        if k == 'num': return str(e[1])
+        if k == 'path':
+            if e[1] in self.names: return self.names[e[1]]
+            if e[1] == 'TREE_ORDER': return 'treeOrder'
+            if e[1] == 'Frame::SIZE': return 'frameSize'
+            if e[1] == 'Meta::MAGIC': return 'metaMagicC'
+            raise TranslateError(f"zone: name {e[1]}")
+        if k == 'field':
+            if e[2] == '0': return self.ex(e[1])
+            if e[1] == ('path', 'self') and e[2] == 'offset': return 'offset'
+            if e[1] == ('path', 'm') and e[2] == 'lower': return 'mLower'
+            raise TranslateError(f"zone: field {e[2]}")
+        if k == 'tuple':
+            if len(e[1]) == 1: return self.ex(e[1][0])
+            return "(" + ", ".join(self.ex(x) for x in e[1]) + ")"
+        if k == 'not': return f"(!{self.ex(e[1])})"
+        if k == 'call':
+            if e[1] == 'FrameId' and len(e[2]) == 1: return self.ex(e[2][0])
+            if e[1] == 'Ok' and len(e[2]) == 1: return f"(Except.ok {self.ex(e[2][0])})"
+            if e[1] == 'Err' and len(e[2]) == 1: return f"(Except.error {self.err(e[2][0])})"
+            if e[1] == 'size_of_val' and e[2] == [('path', 'zone')]: return "(zoneLen * frameSize)"
+            if e[1] == 'Stats::default' and not e[2]: return 'none'
+            raise TranslateError(f"zone: call {e[1]}")
+        if k == 'try': return f"(← {self.ex(e[1])})"
+        if k == 'block' and not e[1] and e[2] is not None: return self.ex(e[2])
+        if k == 'bin':
+            a, b = self.ex(e[2]), self.ex(e[3])
+            if e[1] in ('+', '-', '<', '<=', '>', '>=', '||', '&&'): return f"({a} {e[1]} {b})"
+            if e[1] == '<<': return f"({a} <<< {b})"
+            if e[1] in ('==', '!='): return f"({a} {e[1]} {b})"
+            raise TranslateError(f"zone: operator {e[1]}")
+        if k == 'mcall':
+            r, name, a = e[1], e[2], e[3]
+            if r == ('field', ('path', 'self'), 'alloc') and name in ('get', 'put', 'stats_at'):
+                return "(inner " + " ".join(self.ex(x) for x in a[:1]) + ")"
+            if name == 'checked_sub' and len(a) == 1: return f"(checkedSub {self.ex(r)} {self.ex(a[0])})"
+            if name == 'map' and len(a) == 1: return f"(Option.map {self.fn(a[0])} {self.ex(r)})"
+            if name == 'and_then' and len(a) == 1: return f"(Option.bind {self.ex(r)} {self.fn(a[0])})"
+            if name == 'ok_or' and len(a) == 1: return f"(okOr {self.ex(r)} {self.err(a[0])})"
+            if name == 'transpose' and not a: return f"(transpose {self.ex(r)})"
+            if name == 'is_multiple_of' and len(a) == 1: return f"({self.ex(r)} % {self.ex(a[0])} == 0)"
+            if name == 'div_ceil' and len(a) == 1: return f"(({self.ex(r)} + {self.ex(a[0])} - 1) / {self.ex(a[0])})"
+            if name == 'len' and r == ('path', 'zone') and not a: return self.names['zone.len']
+            if name == 'load' and r[0] == 'field' and r[1] == ('path', 'meta'): return 'header' + r[2].capitalize()
+            raise TranslateError(f"zone: method .{name}()")
+        raise TranslateError(f"zone: expression {k}")
+
+def gen_zone(repo):
+    """`ZoneAlloc::{get, put, stats_at, create}` (frame translation by the zone offset) and the size / header conditions
+    of `NvmAlloc::create` (wrapper.rs)"""
+    src = read(repo + '/core/src/wrapper.rs')
+    Z = "impl<'a, A: Alloc<'a>> Alloc<'a> for ZoneAlloc<'a, A> {"
+    ZC = "impl<'a, A: Alloc<'a>> ZoneAlloc<'a, A> {"
+    NC = "impl<'a, A: Alloc<'a>> NvmAlloc<'a, A> {"
+    out = ["/- GENERATED by tools/rs2lean.py from core/src/wrapper.rs (`ZoneAlloc`, `NvmAlloc::create`) — do not edit. -/",
+           "namespace LLFree.Gen.Z", "",
+           "/-- `enum Error` values used by the wrappers -/",
+           "inductive Err | argument | initialization | memory | address | retry", "  deriving DecidableEq, Repr", "",
+           "/-- `usize::checked_sub` -/",
+           "def checkedSub (a b : Nat) : Option Nat := if b ≤ a then some (a - b) else none",
+           "/-- `Option::ok_or` -/",
+           "def okOr {α : Type} (o : Option α) (e : Err) : Except Err α := match o with | some x => .ok x | none => .error e",
+           "/-- `Option<Result<T, E>>::transpose` -/",
+           "def transpose {α : Type} : Option (Except Err α) → Except Err (Option α)",
+           "  | none => .ok none", "  | some (.ok x) => .ok (some x)", "  | some (.error e) => .error e", ""]
+    def stmts(em, ast, ind="  "):
+        """a straight-line body: lets (also `let (a, b) = e?;`), let-else with an early return, a tail value"""
+        lines = []
+        for st in ast[1]:
+            if st[0] == 'let':
+                pat = st[1]
+                rhs_em = ZoneEmit(dict(em.names))    # the right-hand side does not see the new binding
+                if pat[0] == 'pvar': lhs = pat[1]; em.names[pat[1]] = pat[1]
+                elif pat[0] == 'ptuple' and all(x[0] == 'pvar' for x in pat[1]):
+                    nm = lambda v: 'cls' if v == 'class' else camel_id(v)
+                    for x in pat[1]: em.names[x[1]] = nm(x[1])
+                    lhs = "(" + ", ".join(nm(x[1]) for x in pat[1]) + ")"
+                else: raise TranslateError(f"zone: let pattern {pat}")
+                rhs = st[2]
+                if rhs[0] == 'try': lines.append(f"{ind}let {lhs} ← {rhs_em.ex(rhs[1])}")
+                else: lines.append(f"{ind}let {lhs} := {rhs_em.ex(rhs)}")
+            elif st[0] == 'letelse':
+                pat, rhs, els = st[1], st[2], st[3]
+                if not (pat[0] == 'pctor' and pat[1] == 'Some' and len(pat[2]) == 1 and pat[2][0][0] == 'pvar'):
+                    raise TranslateError("zone: let-else pattern")
+                if els[1] != [('return', ('call', 'Stats::default', []))] and not (els[1] == [] and els[2] == ('ret', ('call', 'Stats::default', []))):
+                    raise TranslateError(f"zone: let-else branch {els}")
+                v = pat[2][0][1]
+                lines.append(f"{ind}match {em.ex(rhs)} with")
+                lines.append(f"{ind}| none => none")
+                lines.append(f"{ind}| some {v} =>")
+                em.names[v] = v
+                ind += "  "
+            else:
+                raise TranslateError(f"zone: statement {st[0]}")
+        if ast[2] is None: raise TranslateError("zone: no tail value")
+        return lines, ind
+    # --- get
+    params, ast = parse_fn(src, 'get', Z)
+    em = ZoneEmit({'frame': 'frame', 'flags': 'flags'})
+    lines, ind = stmts(em, ast)
+    out += [f"/-- `ZoneAlloc::get({' '.join(params.split())})`; `inner` is `self.alloc.get(·, flags)` -/",
+            "def get (inner : Option Nat → Except Err (Nat × Nat)) (offset : Nat) (frame : Option Nat) : Except Err (Nat × Nat) := do"]
+    out += lines + [f"{ind}{em.ex(ast[2])}", ""]
+    # --- put
+    params, ast = parse_fn(src, 'put', Z)
+    em = ZoneEmit({'frame': 'frame', 'flags': 'flags'})
+    lines, ind = stmts(em, ast)
+    out += [f"/-- `ZoneAlloc::put({' '.join(params.split())})`; `inner` is `self.alloc.put(·, flags)` -/",
+            "def put (inner : Nat → Except Err Unit) (offset : Nat) (frame : Nat) : Except Err Unit := do"]
+    out += lines + [f"{ind}{em.ex(ast[2])}", ""]
+    # --- stats_at
+    params, ast = parse_fn(src, 'stats_at', Z)
+    em = ZoneEmit({'frame': 'frame', 'order': 'order'})
+    lines, ind = stmts(em, ast)
+    out += [f"/-- `ZoneAlloc::stats_at({' '.join(params.split())})`: `none` is `Stats::default()`, `inner` is `self.alloc.stats_at(·, order)` -/",
+            "def statsAt {σ : Type} (inner : Nat → σ) (offset : Nat) (frame : Nat) : Option σ :="]
+    out += lines + [f"{ind}some {em.ex(ast[2])}", ""]
+    # --- create: the alignment condition
+    params, body = extract_fn(src, 'create', within=ZC)
+    body = re.sub(r"//[^\n]*", "", body)
+    m = re.match(r"\{\s*if\s+(.*?)\s*\{(.*?)\}\s*Ok\(Self\s*\{(.*?)\}\)\s*\}\s*$", body, re.S)
+    if not m: raise TranslateError("zone: ZoneAlloc::create is not `if cond { .. return Err(..); } Ok(Self {..})`")
+    cond = P(tokenize_str(m.group(1) + ' }')).expr(nostruct=True)
+    th = P(tokenize_str('{' + m.group(2) + '}')).block()
+    rets = [x for x in th[1] if x[0] == 'return']
+    if len(rets) != 1 or th[2] is not None: raise TranslateError("zone: create early return")
+    fields = re.sub(r"\s+", " ", m.group(3)).strip()
+    if not re.match(r"alloc: A::new\(frames, init, classing, meta\)\?, offset, _p: PhantomData,?$", fields):
+        raise TranslateError(f"zone: ZoneAlloc::create fields {fields}")
+    em = ZoneEmit({'offset': 'offset'})
+    out += [f"/-- `ZoneAlloc::create`: the condition under which the offset is rejected, and the error -/",
+            f"def createRejects (treeOrder offset : Nat) : Bool :=\n  {em.ex(cond)}",
+            f"def createError : Except Err Unit := {em.ex(rets[0][1])}", ""]
+    # --- NvmAlloc::create: size condition, header condition, split point
+    params, body = extract_fn(src, 'create', within=NC)
+    body_nc = re.sub(r"//[^\n]*", "", body)
+    m = re.search(r"if\s+(size_of_val\(zone\)[^|{]*?)\s*\|\|", body_nc, re.S)
+    if not m: raise TranslateError("zone: NvmAlloc::create size condition")
+    size_cond = P(tokenize_str(m.group(1) + ' }')).expr()
+    m = re.search(r"let\s+frames\s*=\s*meta\.frames\.load\(Acquire\);\s*if\s+(.*?)\s*\{", body_nc, re.S)
+    if not m: raise TranslateError("zone: NvmAlloc::create header condition")
+    hdr_cond = P(tokenize_str(m.group(1) + ' }')).expr(nostruct=True)
+    m = re.search(r"zone\.split_at_mut\((.*?)\);", body_nc, re.S)
+    if not m: raise TranslateError("zone: NvmAlloc::create split point")
+    split = P(tokenize_str(m.group(1) + ' }')).expr()
+    # the order of the statements that decide what `zone.len()` means: the header page is split off first
+    i_split_last = body_nc.find('zone.split_last_mut()'); i_hdr = body_nc.find('meta.frames.load'); i_store = body_nc.find('meta.frames.store(zone.len()'); i_at = body_nc.find('zone.split_at_mut(')
+    if not (0 < body_nc.find('size_of_val(zone)') < i_split_last < i_hdr < i_store < i_at):
+        raise TranslateError("zone: NvmAlloc::create statement order")
+    if not re.search(r"A::metadata_size\(classing,\s*zone\.len\(\)\)", body_nc[:i_split_last]):
+        raise TranslateError("zone: NvmAlloc::create metadata size argument")
+    em0 = ZoneEmit({'zone.len': 'zoneLen'})
+    em1 = ZoneEmit({'zone.len': '(zoneLen - 1)', 'frames': 'headerFrames'})
+    out += ["/-- `NvmAlloc::create`: the region of `zoneLen` frames is too small (`mLower = metadata_size(classing, zone.len()).lower`) -/",
+            f"def nvmTooSmall (frameSize mLower zoneLen : Nat) : Bool :=\n  {em0.ex(size_cond)}",
+            "/-- `NvmAlloc::create(recover = true)`: the header is rejected (after the header page was split off the zone) -/",
+            f"def nvmHeaderRejects (metaMagicC headerMagic headerFrames zoneLen : Nat) : Bool :=\n  {em1.ex(hdr_cond)}",
+            "/-- `NvmAlloc::create`: number of frames handed to the inner allocator (split point of the remaining zone) -/",
+            f"def nvmManaged (frameSize mLower zoneLen : Nat) : Nat :=\n  {em1.ex(split)}", ""]
+    out.append("end LLFree.Gen.Z")
+    return "\n".join(out) + "\n"
+
+GENERATORS = {'Consts': gen_consts, 'Fza': gen_fza, 'Leaf': gen_leaf, 'Tree': gen_tree, 'Local': gen_local, 'Huge': gen_huge, 'Policy': gen_policy, 'Toggle': gen_toggle, 'Check': gen_check, 'Meta': gen_meta, 'Sbuf': gen_sbuf, 'Idx': gen_idx, 'Zone': gen_zone}
 
 def write_if_changed(path, txt):
     if os.path.exists(path) and read(path) == txt: return False
